@@ -5,8 +5,7 @@ from harness.oracles import all as ALL
 ID = 'C05'
 UNITS = ['bipartite_match', 'match_events', 'note_matching', 'multipitch_metrics']
 TRANSLATORS = []
-NOT_COVERED = ('termination of the matcher model within its fuel is observed in every correspondence run, not proved (theorems are "whenever the '
-               'model returns"); np.argsort tie order: on references with tied values only sizes and validity are compared, not identical pairs')
+NOT_COVERED = ('np.argsort tie order: on references with tied values only sizes and validity are compared, not identical pairs')
 ASSUMPTIONS = ['dict insertion order of CPython >= 3.7 (the model reproduces the returned dict including its order)']
 
 
@@ -77,13 +76,12 @@ def known_match(f, known):
 
 
 MANIFEST = {
-    'text': 'Theorem (all graphs, no size bound): whenever the Gallina transcription of util._bipartite_match returns, the result is a '
+    'text': 'Theorem (all graphs with distinct keys, no size bound): the Gallina transcription of util._bipartite_match always returns, and the result is a '
             'one-to-one set of feasible pairs and no larger one exists (Hopcroft-Karp augmentation/layering invariants + Koenig cover); its size is the '
             'declarative maximum, invariant under reordering and transposition. On top: the pair enumeration of _fast_hit_windows is exactly the tolerance '
             'predicate (also for unsorted references), the graph has exactly those edges, and match_events / the three note matchers / the multipitch '
             'frame counts are valid maximum matchings of their stated predicates. Tied by exact-dict, hit-set and matching correspondences evaluated in Coq.',
     'design_ref': 'DESIGN.md section 6, C05',
-    'level_note': 'Trusted: Coq kernel + vm_compute; the correspondence harness; CPython dict order. Partial correctness: termination within the '
-                  'fuel is observed by correspondence, not proved.',
+    'level_note': 'Trusted: Coq kernel + vm_compute; the correspondence harness; CPython dict order. Total correctness: the model never runs out of its fuel (bipartite_match_total).',
     'technique': 'Coq proof (invariants + Koenig certificate) on a Gallina model of Hopcroft-Karp and of the graph construction; model/code correspondence by vm_compute',
 }
